@@ -249,7 +249,9 @@ def minimise_native(cache, opt, case, outdir, vclass, log):
 
 def gen_py_case(rng, layer):
     ndim = rng.below(3) == 0
-    n = 1 + rng.below(8)
+    big = rng.below(24) == 0          # swarm sizing: one case in 24 is much larger than the rest
+    n = 9 + rng.below(10) if big else 1 + rng.below(8)
+    maxl = 20 if big else 9
     d = 1 + rng.below(3) if ndim else 1
     grid = rng.below(3)
 
@@ -261,10 +263,10 @@ def gen_py_case(rng, layer):
         return round(rng.uniform(-4, 4), 3)
 
     equal = rng.below(3) == 0
-    L0 = 1 + rng.below(9)
+    L0 = 1 + rng.below(maxl)
     series = []
     for i in range(n):
-        L = L0 if equal else 1 + rng.below(9)
+        L = L0 if equal else 1 + rng.below(maxl)
         if ndim:
             series.append([[val() for _ in range(d)] for _ in range(L)])
         else:
@@ -360,14 +362,15 @@ def call_matrix(c, s, blk, kw, parallel, use_c, use_mp):
     dtw_ndim module's twins.  The serial twin always goes through the same entry with parallel=False."""
     from dtaidistance import dtw, dtw_ndim
     entry = c.get("entry", "dtw")
+    if entry == "fast" and c["ndim"] and c["layer"] == "C":
+        # dtw_ndim.distance_matrix_fast has neither a use_mp nor a use_pruning parameter: the multiprocessing layer uses the
+        # generic entry for BOTH the serial twin and the parallel run (same arguments on both sides, always)
+        entry = "dtw"
     common = dict(block=blk, compact=c["compact"], only_triu=c["only_triu"], parallel=parallel)
     if entry == "fast" and use_c:
         k2 = {k: v for k, v in kw.items() if k != "use_ndim"}
-        if c["ndim"] and not use_mp:
-            return dtw_ndim.distance_matrix_fast(s, **{k: v for k, v in k2.items() if k != "use_pruning"}, **common)
         if c["ndim"]:
-            # dtw_ndim.distance_matrix_fast has no use_mp parameter: the multiprocessing layer goes through the generic entry
-            return dtw.distance_matrix(s, use_c=use_c, use_mp=use_mp, **kw, **common)
+            return dtw_ndim.distance_matrix_fast(s, **{k: v for k, v in k2.items() if k != "use_pruning"}, **common)
         return dtw.distance_matrix_fast(s, use_mp=use_mp, **k2, **common)
     if entry == "ndim_module" and c["ndim"]:
         k2 = {k: v for k, v in kw.items() if k != "use_ndim"}
@@ -999,7 +1002,7 @@ def main(tier, seed, log=print):
     core.write_evidence(PROP, tier, seed, coverage, wall, len(new_violations),
                         ["clang's lowering of the OpenMP pragmas at -O0 (and -O1 in the thorough tier) under sequential consistency stands for the shipped gcc/libgomp build",
                          "in-process simpool shares module globals between 'workers' (worker functions touch none; fork-backed cross-check in the thorough tier)",
-                         "bounds: <= 9 series, length <= 10, ndim <= 3, threads <= 64, pool workers <= 17"])
+                         "bounds: mostly <= 9 series of length <= 10 (one case in 24-32: 10..21 series of length <= 20), ndim <= 3, threads <= 64, pool workers <= 17"])
     core.report_and_exit(PROP, new_violations, known_hits)
 
 
